@@ -135,6 +135,7 @@ struct RefsWorld : World {
 		// library objects: 0 reply context, 1 raw data, 2 generic metatype, 3 stream input; holders counted in lib_model
 		// 4 text metatype (inline), 5 text metatype (300 bytes: buffer backed), 6 metatype view of an array, 7 remote output, 8 C++ io::stream input, 9 sub-tree view of the global configuration
 		enum { NK = 10 };
+		int acc_ch = -1; auto chan_open = [](int ch) { int n = 0; for (auto &f : simio::S.fds) if (f.open && (f.rchan == ch || f.wchan == ch)) ++n; return n; };
 		metatype *lib[NK] = {0}; long lib_model[NK] = {0}; int lib_fd = -1; bool lib_counted[NK]; for (auto &b : lib_counted) b = true;
 		// (kinds 4-6 and 8 are created with operator new inside the C++ layer, which the ledger sees as well)
 		CArr bufh[3]; for (auto &b : bufh) b.buf = 0;                 // buffers: handles sharing one buffer
@@ -289,7 +290,17 @@ struct RefsWorld : World {
 				}
 				else if (k == 6) { CArr a = {0}; { Sut su; mpt_array_append(AR(a), 12, "hello world"); } { Sut su(failn); lib[k] = (op.c & 256) ? verif_c_meta_buffer(AR(a)) : mpt_meta_buffer(AR(a)); fired = g.fired; } { Sut su; mpt_array_clone(AR(a), 0); } }
 				else if (k == 7) { input *in; { Sut su(failn); in = mpt_output_remote(); fired = g.fired; } lib[k] = in ? static_cast<metatype *>(in) : 0; }
-				else if (k == 8) { io::stream::input *in; { Sut su(failn); in = io::stream::input::create(0); fired = g.fired; } lib[k] = in ? static_cast<metatype *>(in) : 0; }
+				else if (k == 8 && (op.c & 512)) {
+					// the way io::socket::accept() makes its input: the descriptor is put into a local streaminfo, the input is created from
+					// it, the streaminfo goes away. The input needs a descriptor of its own for as long as anybody holds it
+					acc_ch = simio::new_chan(64); int fd = simio::new_fd(acc_ch, acc_ch, O_RDWR | O_NONBLOCK);
+					io::stream::input *in;
+					{ streaminfo info; { Sut su; _mpt_stream_setfile(&info, fd, fd); info.set_flags(stream::Buffer); } { Sut su(failn); in = io::stream::input::create(&info); fired = g.fired; } }
+					lib[k] = in ? static_cast<metatype *>(in) : 0;
+					if (!in) acc_ch = -1; else st.hit("probe:input_from_streaminfo");
+					if (in && !chan_open(acc_ch)) fail("destroyed-early", "a stream input created from a streaminfo has no open descriptor left once the streaminfo is gone (1 holder)");
+				}
+				else if (k == 8) { io::stream::input *in; { Sut su(failn); in = io::stream::input::create(0); fired = g.fired; } lib[k] = in ? static_cast<metatype *>(in) : 0; acc_ch = -1; }
 				else if (k == 9) { mpt::path pp; pp.sep = '.'; pp.assign = 0; { Sut su; mpt_path_set(&pp, "refs.view", -1); } { Sut su(failn); lib[k] = mpt_config_global(&pp); fired = g.fired; } }
 				else {
 					int ch = simio::new_chan(64); lib_fd = simio::new_fd(ch, ch, O_RDWR | O_NONBLOCK);
@@ -346,6 +357,13 @@ struct RefsWorld : World {
 				if (lib_model[k] > 0 && freed) fail("destroyed-early", "library object kind %d destroyed with %ld holders left", k, lib_model[k]);
 				if (lib_model[k] == 0 && !freed) fail("never-destroyed", "library object kind %d still allocated after its last reference was dropped", k);
 				if (k == 3) { int c = simio::get(lib_fd)->closes - closes_before; if ((lib_model[k] == 0) != (c >= 1)) fail(lib_model[k] ? "destroyed-early" : "never-destroyed", "stream input: descriptor closed %d time(s) with %ld holders left", c, lib_model[k]); if (c > 1) { st.hit("probe:descriptor_closed_twice"); fail("released-twice", "stream input: its descriptor was closed %d times when the last holder let go", c); } }
+				if (k == 8 && acc_ch >= 0) {
+					int open = chan_open(acc_ch);
+					if (lib_model[k] > 0 && !open) fail("destroyed-early", "stream input from a streaminfo: no open descriptor with %ld holders left", lib_model[k]);
+					if (lib_model[k] == 0 && open) fail("never-destroyed", "stream input from a streaminfo: %d descriptor(s) still open after the last holder let go", open);
+					for (auto &f : simio::S.fds) if ((f.rchan == acc_ch || f.wchan == acc_ch) && f.closes > 1) fail("released-twice", "stream input from a streaminfo: a descriptor was closed %d times", f.closes);
+					if (lib_model[k] == 0) acc_ch = -1;
+				}
 				if (lib_model[k] == 0) lib[k] = 0;
 				outcome = freed ? 2 : 1;
 				break;
